@@ -158,6 +158,7 @@ Proof.
   - destruct ds'; discriminate.
   - rewrite Hx. change (ch "u" =? 46)%N with false. change (exponent_len (ch "u" :: 32%N :: rest)) with (@None nat).
     cbn [option_map]. cbv iota beta. change ((ch "u" =? ch "u")%N || (ch "u" =? ch "U")%N) with true. cbv iota.
+    unfold best_num.
     replace (length (d :: ds') <? S (length (d :: ds'))) with true by (symmetry; apply Nat.ltb_lt; lia). reflexivity.
 Qed.
 
